@@ -59,8 +59,8 @@ prop("C02", opts={"memprop": "C02"}, also=["C03/unexpected-response", "C03/missi
      required_probes=["ledger_response", "no_id_request", "response_as_request", "id_fraction", "id_beyond_int", "batch_len>=3", "routed_seen_by_owner"])
 
 prop("C06", also=["C07/hygiene/.*"], opts={"memprop": "C06"},
-     mix=[("c06", "default", 3), ("c06", "small", 2), ("c02", "default", 1), ("c06", "batch1", 1), ("c04", "default", 1), ("c08", "default", 1), ("c01", "small", 0.5)],
-     quick_mix=[("c06", "default", 2), ("c06", "small", 1), ("c04", "default", 0.7), ("c08", "default", 0.7)],
+     mix=[("c06", "default", 3), ("c06", "small", 2), ("c02", "default", 1), ("c06", "batch1", 1), ("c04", "default", 1), ("c08", "default", 1), ("c01", "small", 0.5), ("c12", "default", 1)],
+     quick_mix=[("c06", "default", 2), ("c06", "small", 1), ("c04", "default", 0.7), ("c08", "default", 0.7), ("c12", "default", 0.7)],
      quick_s=25, thorough_s=600,
      rule="structured hostile input (JSON-RPC member shapes, long names, HTTP request lines and headers, WebSocket frames over the whole header space, length prefixes around every limit) and unstructured bytes on all three "
           "endpoints under random segmentation, read caps and event batching; oracle: no sanitizer report, no crash, no hang, descriptor hygiene, canary served afterwards. non-trivial: >=1 message reached the dispatcher or frame parser; distinct by trace hash",
